@@ -92,6 +92,8 @@ def _evict(max_files=40):
             p = fs.pop(0)
             if os.path.basename(p).startswith(cur):
                 continue
+            if time.time() - os.path.getmtime(p) < 1800:
+                continue          # possibly in use by a concurrent check of another tree
             os.remove(p)
     except OSError:
         pass
